@@ -3,7 +3,7 @@ from __future__ import annotations
 
 import isodate
 from phantom.re import FullMatch
-from pint import Quantity, UndefinedUnitError, Unit
+from pint import OffsetUnitCalculusError, Quantity, UndefinedUnitError, Unit
 from pydantic import StrictBool, StrictBytes, StrictFloat, StrictInt, StrictStr
 from typing_extensions import TypeAlias
 
@@ -131,7 +131,13 @@ class PintQuantity(ParserMixin, Quantity):
         if kwargs.get("passthrough"):
             return super().__new__(cls, *args)
 
-        ret = Quantity(*args)  # ensure that the quantity is correctly parsed
+        try:
+            ret = Quantity(*args)  # ensure that the quantity is correctly parsed
+        except OffsetUnitCalculusError:
+            # "<magnitude> <offset unit>", e.g. "25 degC" (also what str() prints),
+            # cannot be evaluated as a product -> build it from its two parts
+            mag, unit = str(args[0]).split(maxsplit=1)
+            ret = Quantity(Quantity(mag).m, unit)
         # return instance of the subclass:
         return cls(ret.m, ret.u, passthrough=True)
 
